@@ -212,6 +212,7 @@ TECH['C09'] += ' + Env::get_tty (ghost log of open / move_fd_internal calls)'
 LEVEL_TEXT['C11'] += ' Added (unit sigcatch): every signal of every batch the system reports is handed to the trap table once, in order (Env::wait_for_signals / wait_for_signal).'
 TECH['C11'] += ' + Env::wait_for_signals / wait_for_signal'
 TECH['C16'] += ' + Env::get_or_create_variable (allexport)'
+TECH['C08'] += ' + RunBlocking::run_blocking (signal mask around tcsetpgrp)'
 
 def main():
     checks = []
